@@ -246,7 +246,10 @@ def step (st : St) (line : String) : St × String :=
       let hints := match getS m "hint" with | some h => (h.splitOn "+").filterMap String.toNat? | none => []
       let rapHint := match getS m "rap" with | some h => h.splitOn "+" | none => []
       finish st (b.deliverMsg "" msg hints rapHint).1
-    | "api", "term" :: cid :: _ => finish st (b.apiTerminate (unesc cid))
+    | "api", "term" :: cid :: _ =>
+      -- nowait=1: the harness does not wait for the broker to come to rest; what the termination writes is seen with the next op
+      if getN m "nowait" 0 == 1 then ({ st with b := b.apiTerminate (unesc cid) }, "ok")
+      else finish st (b.apiTerminate (unesc cid))
     | "api", "expire" :: _ => finish st b.apiExpire
     | "api", "backdate" :: cid :: secs :: _ =>
       if (b.sess? (unesc cid)).isNone then
